@@ -68,7 +68,7 @@ theorem acc_step_const {B d d' : RB} {done : Int → Int → Bool} {v : Content}
     {L0 C0 n : Int} (hd : DrawSpec d d' L0 C0 n (fun _ _ => v)) :
     Acc B d' (fun L C => done L C || (decide (L = L0) && decide (C0 ≤ C) && decide (C < C0 + n))) (fun _ _ => v) := by
   have hw : ∀ L C, writable d L C = writable B L C := writable_congr h.aux h.mask
-  refine ⟨hd.wf, hd.aux.trans h.aux, ?_, ?_⟩
+  refine ⟨hd.wf, hd.aux.trans h.aux, ?_, ?_, ⟨hd.flags.1.trans h.flags.1, hd.flags.2.trans h.flags.2⟩⟩
   · intro l c h0 h1 h2 h3
     rw [hd.mask l c h0 (by rw [h.aux.lines]; exact h1) h2 (by rw [h.aux.cols]; exact h3)]
     exact h.mask l c h0 h1 h2 h3
@@ -193,6 +193,7 @@ structure Result (B rb' : RB) (E : Int → Int → Content) : Prop where
   aux : SameAux rb' B
   mask : ∀ l c, 0 ≤ l → l < B.lines → 0 ≤ c → c < B.cols → ((rb'.cells l).get c).maskdepth = ((B.cells l).get c).maskdepth
   content : ∀ L C, absContent rb' L C = E L C
+  flags : rb'.aborted = B.aborted ∧ rb'.fuelOut = B.fuelOut
 
 theorem copy_result (B : RB) (dr sr : Rect) (hwf : WF B) (hxl : B.xlLine = 0) (hxc : B.xlCol = 0)
     (ht0 : 0 ≤ sr.top) (hb1 : sr.top + sr.lines ≤ B.lines) (hc0 : 0 ≤ sr.left) (hc1 : sr.left + sr.cols ≤ B.cols)
@@ -207,10 +208,10 @@ theorem copy_result (B : RB) (dr sr : Rect) (hwf : WF B) (hxl : B.xlLine = 0) (h
       have h1 : true = true ∧ dr.top - sr.top = 0 ∧ dr.left - sr.left = 0 := ⟨rfl, by omega, by omega⟩
       rw [if_pos h1]
     rw [this]
-    refine ⟨hwf, SameAux.refl, fun _ _ _ _ _ _ => rfl, fun L C => ?_⟩
+    refine ⟨hwf, SameAux.refl, fun _ _ _ _ _ _ => rfl, fun L C => ?_, ⟨rfl, rfl⟩⟩
     unfold selfCopyExpect; rw [if_pos hid]
   · have hacc := copyrect_same_acc true B dr sr hwf hxl hxc ht0 hb1 hc0 hc1 hne.1 hne.2 (by omega)
-    refine ⟨hacc.wf, hacc.aux, hacc.mask, fun L C => ?_⟩
+    refine ⟨hacc.wf, hacc.aux, hacc.mask, fun L C => ?_, hacc.flags⟩
     unfold selfCopyExpect; rw [if_neg hid]
     exact acc_final hacc L C
 
@@ -225,7 +226,8 @@ theorem move_result (B : RB) (dr sr : Rect) (hwf : WF B) (hxl : B.xlLine = 0) (h
   have hacc := foldl_skiprect_acc rects (copy Variant.repaired B dr sr) (fun _ _ => false)
     (acc_init hcopy.wf (fun _ _ => Content.skip))
   have hw : ∀ L C, writable (copy Variant.repaired B dr sr) L C = writable B L C := writable_congr hcopy.aux hcopy.mask
-  refine ⟨hacc.wf, hacc.aux.trans hcopy.aux, ?_, ?_⟩
+  refine ⟨hacc.wf, hacc.aux.trans hcopy.aux, ?_, ?_,
+    ⟨hacc.flags.1.trans hcopy.flags.1, hacc.flags.2.trans hcopy.flags.2⟩⟩
   · intro l c h0 h1 h2 h3
     rw [hacc.mask l c h0 (by rw [hcopy.aux.lines]; exact h1) h2 (by rw [hcopy.aux.cols]; exact h3)]
     exact hcopy.mask l c h0 h1 h2 h3
@@ -256,7 +258,7 @@ theorem blit_result (dst src : RB) (hwf : WF dst) (hsrc : WF src) (hl : 0 ≤ sr
   · have : copyrect Variant.repaired false false dst src ⟨0, 0, src.lines, src.cols⟩ ⟨0, 0, src.lines, src.cols⟩ = dst := by
       unfold copyrect; rw [if_pos hz]
     rw [this]
-    refine ⟨hwf, SameAux.refl, fun _ _ _ _ _ _ => rfl, fun L C => ?_⟩
+    refine ⟨hwf, SameAux.refl, fun _ _ _ _ _ _ => rfl, fun L C => ?_, ⟨rfl, rfl⟩⟩
     unfold blitExpect
     rw [copyExpect_eq]
     have : ¬ ((Rect.memb ⟨0, 0, src.lines, src.cols⟩ (L - dst.xlLine) (C - dst.xlCol) && writable dst L C) = true) := by
@@ -268,7 +270,7 @@ theorem blit_result (dst src : RB) (hwf : WF dst) (hsrc : WF src) (hl : 0 ≤ sr
     rw [if_neg this]
   · have hacc := copyrect_other_acc false dst src ⟨0, 0, src.lines, src.cols⟩ ⟨0, 0, src.lines, src.cols⟩ hwf hsrc
       (Int.le_refl _) (by simp) (Int.le_refl _) (by simp) (by simp only []; omega) (by simp only []; omega)
-    refine ⟨hacc.wf, hacc.aux, hacc.mask, fun L C => ?_⟩
+    refine ⟨hacc.wf, hacc.aux, hacc.mask, fun L C => ?_, hacc.flags⟩
     unfold blitExpect
     have h := acc_final hacc L C
     simp only [Int.sub_self, Int.zero_add] at h
